@@ -11,10 +11,13 @@ func Register(reg func(id, level string, f func(*load.Prog, *report.Report))) {
 	reg("C01", "proof", C01)
 	reg("C02", "proof", C02)
 	reg("C05", "proof", C05)
+	reg("C07", "proof", C07)
 	reg("C10", "other", C10)
+	reg("C13", "proof", C13)
 	reg("C14", "proof", C14)
 	reg("C15", "proof", C15)
 	reg("C16", "proof", C16)
 	reg("C17", "proof", C17)
+	reg("C18", "proof", C18)
 	reg("C19", "proof", C19)
 }
